@@ -70,6 +70,17 @@ def split_lines(path, k, outdir, tag):
     return [f.name for f in files if os.path.getsize(f.name) > 0]
 
 
+def _drop_partial_last_line(path):
+    """a crashed process may leave an incomplete last record: cut it off so that the JSON reader sees whole lines only"""
+    try:
+        data = open(path, "rb").read()
+    except OSError:
+        return
+    if data and not data.endswith(b"\n"):
+        k = data.rfind(b"\n")
+        open(path, "wb").write(data[:k + 1] if k >= 0 else b"")
+
+
 def run_interp(exe, scripts_file, trace_file, timeout=1800, args=()):
     """Replay scripts on the real code. Returns (rc, stderr_text)."""
     errf = trace_file + ".err"
@@ -85,6 +96,8 @@ def run_interp(exe, scripts_file, trace_file, timeout=1800, args=()):
     err = open(errf).read()
     if rc == 2:
         raise MachineryError("interpreter %s refused its input: %s" % (os.path.basename(exe), err[-500:]))
+    if rc != 0:
+        _drop_partial_last_line(trace_file)
     if rc != 0:
         # abnormal end: an event no specification matches marks the spot
         with open(trace_file, "a") as f:
